@@ -315,6 +315,17 @@ done:
       flags |= ARES_CONN_STATE_WRITE;
     }
 
+    /* A TCP connection not yet known to be established (TFO after its initial
+     * write) is still waiting for the write event that says so.  Flushing it
+     * with nothing to write, as ares_process_pending_write() does for every
+     * connection, must not withdraw that interest, or queries enqueued later
+     * are never written. */
+    if (conn->flags & ARES_CONN_FLAG_TCP &&
+        !(conn->flags & ARES_CONN_FLAG_TFO_INITIAL) &&
+        !(conn->state_flags & ARES_CONN_STATE_CONNECTED)) {
+      flags |= ARES_CONN_STATE_WRITE;
+    }
+
     ares_conn_sock_state_cb_update(conn, flags);
   }
 
